@@ -53,6 +53,24 @@ type c12Shape struct {
 	SavedVer uint64 `json:"saved_version"`
 	LoadVer  uint64 `json:"load_version"`
 	Big      bool   `json:"multi_block"`
+	// Full: the saving cache is filled to its MaxSize (= Entries, unit costs) and the stream is loaded into a cache of
+	// TargetSize (same size, or smaller), so that the receiving cache has no room left when the tail of the stream arrives
+	Full       bool  `json:"saving_cache_full,omitempty"`
+	TargetSize int64 `json:"receiving_maxsize,omitempty"`
+}
+
+func (sh c12Shape) sourceSize() int64 {
+	if sh.Full {
+		return int64(sh.Entries)
+	}
+	return int64(sh.Entries*4 + 100)
+}
+
+func (sh c12Shape) targetSize() int64 {
+	if sh.TargetSize > 0 {
+		return sh.TargetSize
+	}
+	return sh.sourceSize()
 }
 
 // ---- gob framing
@@ -165,12 +183,15 @@ func c12Build[V comparable](maxsize int64) (*theine.Cache[int, V], error) {
 }
 
 func newC12Runner[V comparable](r *Run, sh c12Shape, mk func(i int) V, cost func(i int) int64) (*c12Runner[V], error) {
-	c, err := c12Build[V](int64(sh.Entries*4 + 100))
+	c, err := c12Build[V](sh.sourceSize())
 	if err != nil {
 		return nil, err
 	}
 	defer c.Close()
 	st := c.VerifStore()
+	if sh.Full {
+		cost = func(int) int64 { return 1 }
+	}
 	if sh.UptimeS > 0 {
 		st.VerifShiftClock(time.Duration(sh.UptimeS)*time.Second, true)
 		st.VerifRefreshClock()
@@ -181,6 +202,12 @@ func newC12Runner[V comparable](r *Run, sh c12Shape, mk func(i int) V, cost func
 			ttl = time.Duration(600+37*i) * time.Second
 		}
 		c.SetWithTTL(i, mk(i), cost(i), ttl)
+	}
+	if sh.Full {
+		// twice as many keys as fit: the cache is full when it is saved
+		for i := sh.Entries; i < 2*sh.Entries; i++ {
+			c.Set(i, mk(i), 1)
+		}
 	}
 	c.Wait()
 	// touch some entries so that several regions are populated
@@ -238,7 +265,7 @@ func (rn *c12Runner[V]) tryBytes(m c12Mutant, data []byte) {
 		line := fmt.Sprintf("%-120s\n", fmt.Sprintf("shape=%s kind=%s off=%d arg=%d len=%d", rn.shape.Name, m.Kind, m.Off, m.Arg, m.Len))
 		_, _ = rn.lastF.WriteAt([]byte(line), 0)
 	}
-	c, err := c12Build[V](int64(rn.shape.Entries*4 + 100))
+	c, err := c12Build[V](rn.shape.targetSize())
 	if err != nil {
 		r.Broken("build: %v", err)
 		return
@@ -574,6 +601,11 @@ func runC12(r *Run) {
 		{Name: "version-mismatch-newer-stream", Entries: 10, SavedVer: 9, LoadVer: 3},
 		{Name: "version-mismatch-newer-stream-vs-zero", Entries: 1, TTL: true, SavedVer: 1, LoadVer: 0},
 		{Name: "version-mismatch-max-vs-zero", Entries: 1, SavedVer: ^uint64(0), LoadVer: 0},
+		// a full cache saved and loaded into a cache of the same size / a third of it: the receiving cache has no room
+		// left while the tail of the stream (further entries, the end block) is still to come
+		{Name: "full-cache-same-size", Entries: 12, TTL: true, Full: true},
+		{Name: "full-cache-into-a-third", Entries: 12, Full: true, TargetSize: 4},
+		{Name: "full-cache-into-size-1", Entries: 6, TTL: true, UptimeS: 3600, Full: true, TargetSize: 1},
 	}
 	exhaustive := true
 	for _, sh := range small {
